@@ -11,6 +11,7 @@ package main
 // does (any more): the tie of C05 / C06 / C09 / C10 / C16 / C20's certificates is broken.
 
 import (
+	"sync/atomic"
 	"context"
 	"errors"
 	"fmt"
@@ -465,6 +466,11 @@ func cirTraceValidation(ctx *runCtx, n int) {
 	rep := ctx.rep
 	if ctx.drv == nil {
 		rep.note("cirtrace: model driver unavailable, trace validation skipped")
+		return
+	}
+	if atomic.LoadInt32(&hangCount) > 0 {
+		// library calls already hang in this run (reported with their cases): scenarios run on such a library do not finish
+		rep.note("cirtrace: skipped, library calls hang in this run")
 		return
 	}
 	websocket.VerifSetEventHook(syncHook)
